@@ -173,7 +173,7 @@ def showDesc (d : Desc) : String :=
   toString d.name ++ "/" ++ (if d.body == some 0 then "-" else showOpt d.body) ++ "/" ++ showOpt d.type
 
 def showReport (r : ReportKind × Nat) : String :=
-  (match r.1 with | .duplicate => "dup" | .notFound => "notfound" | .asKeyword => "askw") ++ ":" ++ toString r.2
+  (match r.1 with | .duplicate => "dup" | .notFound => "notfound" | .asKeyword => "askw" | .duplicateType => "duptype") ++ ":" ++ toString r.2
 
 end Params
 
@@ -298,7 +298,7 @@ def handle (args : List String) : String :=
     | some existing, some fields =>
       let st := Attrs.extract (existing.map fun n => (n, ⟨none, none, true⟩)) fields
       "attrs " ++ (if st.attrs.isEmpty then "-" else " ".intercalate (st.attrs.map Attrs.showAttr)) ++
-      " | missing " ++ Proto.showNatList st.missing
+      " | missing " ++ Proto.showNatList st.missing ++ " | dup " ++ Proto.showNatList st.duplicates
     | _, _ => "bad-op"
   | ["showntype", a, b, c] =>
     match Params.optNat a, Proto.natList b, Params.optNat c with
@@ -327,7 +327,7 @@ def handle (args : List String) : String :=
     | _, _ => "bad-op"
   | "pair" :: evs =>
     match evs.mapM Fields.parseEvent with
-    | some es => Fields.showPair (Fields.runPair none es)
+    | some es => Fields.showPair (Fields.runPair none es) ++ " dups=" ++ toString (Fields.pairDupCount none es)
     | none => "bad-op"
   | ["spaces"] =>
     Proto.showNatList ((List.range 0x3100).filter fun n => pyIsSpace (Char.ofNat n))
